@@ -76,11 +76,13 @@ type Enc struct {
 	initUnit      bool
 	preserved     []modTarget // state preserved across unbounded-frame calls (kind loc or elems)
 	deferredPres  []deferredPreserve
+	dbgCall       string
 	lemmasUsed    map[string]bool
-	curCall       *ssa.CallCommon // the call being encoded (for modifies targets resolved at the call site)
-	absRecv       Val             // refinement check: the receiver whose interface-level ghost fields are abstracted
-	absRecvBoxed  Val             // the same receiver as reached through the interface value (payload of the boxed receiver)
-	absType       string          // its type as written in the abstracts declarations' package (resolved type string)
+	iterUnstable  map[ssa.Value]bool // map iterators whose map the loop body may modify
+	curCall       *ssa.CallCommon    // the call being encoded (for modifies targets resolved at the call site)
+	absRecv       Val                // refinement check: the receiver whose interface-level ghost fields are abstracted
+	absRecvBoxed  Val                // the same receiver as reached through the interface value (payload of the boxed receiver)
+	absType       string             // its type as written in the abstracts declarations' package (resolved type string)
 	revealed      map[string]bool
 	revealDone    map[string]bool
 	epochCounter  int
@@ -233,7 +235,9 @@ func (e *Enc) assume(st *State, f Val) {
 
 // name introduces a constant for a large term to keep formulas small.
 func (e *Enc) name(prefix string, v Val) Val {
-	if len(v.T) < 48 {
+	if len(v.T) < 48 || strings.Contains(v.T, "!") {
+		// (a term that mentions a bound variable - they are spelled name!depth - cannot be named by a
+		// top-level constant)
 		return v
 	}
 	c := e.fresh(prefix, v.S)
